@@ -105,7 +105,7 @@ func c18decode(data []byte, rev int, res proto.Result) error {
 func TestC18Binding(t *testing.T) {
 	st := stats.G()
 	classes := []string{"identical", "permuted", "renamed", "extra-column", "missing-column", "blank-names", "type-swapped",
-		"fixedstring-size", "zero-rows-no-targets", "zero-rows-with-targets", "custom-serialization", "schema-change-sequence", "auto-targets-enforced", "autoresult-reinferred", "rows-without-columns"}
+		"fixedstring-size", "zero-rows-no-targets", "zero-rows-with-targets", "custom-serialization", "schema-change-sequence", "auto-targets-enforced", "autoresult-reinferred", "rows-without-columns", "names-differ-by-case"}
 	rapid.Check(t, func(rt *rapid.T) {
 		class := rapid.SampledFrom(classes).Draw(rt, "class")
 		rev := rapid.SampledFrom(blockRevs).Draw(rt, "rev")
@@ -205,6 +205,58 @@ func TestC18Binding(t *testing.T) {
 			tc, res := mkTargets(false)
 			err := c18decode(encodeRefBlock(rev, blockCols(ren), -1), rev, res)
 			expectErr(tc, cols, nil, err, []string{ren[i].Name}, "one column renamed")
+		case "names-differ-by-case":
+			// Column names are case-sensitive (SELECT x AS ID, y AS id is legal): two targets of one type
+			// whose names differ by case only. The block in target order binds; the same two columns in
+			// the other order, or a column whose name differs from its target's by case only, do not.
+			base := rapid.SampledFrom([]string{"id", "Name", "userId", "x"}).Draw(rt, "base-name")
+			up, lo := strings.ToUpper(base), strings.ToLower(base)
+			if up == base {
+				base = lo
+			}
+			k := cols[0].Kind
+			pair := []colSpec{{Name: base, Kind: k, Rows: cols[0].Rows}, {Name: up, Kind: k, Rows: gen.DrawRows(rt, k, rows)}}
+			mk := func() ([]gen.Col, proto.Results) { return typedTargets(pair) }
+			tc, res := mk()
+			if err := c18decode(encodeRefBlock(rev, blockCols(pair), -1), rev, res); err != nil {
+				rt.Fatalf("[%s] block %q, %q into targets of the same names: %v", class, base, up, err)
+			}
+			for i := range tc {
+				got, _ := readAll(tc[i])
+				if j, ok := ref.EqualRows(k.T, got, pair[i].Rows); !ok {
+					rt.Fatalf("[%s] target %q: row %d differs after the matching block", class, pair[i].Name, j)
+				}
+			}
+			swapped := []colSpec{pair[1], pair[0]}
+			tc, res = mk()
+			err := c18decode(encodeRefBlock(rev, blockCols(swapped), -1), rev, res)
+			if err == nil || isPanic(err) {
+				got0, _ := readAll(tc[0])
+				_, same := ref.EqualRows(k.T, got0, pair[1].Rows)
+				rt.Fatalf("[%s] block with columns %q, %q decoded into targets %q, %q without an error (%v); target %q now holds the rows of column %q: %v", class, up, base, base, up, err, base, up, same)
+			}
+			recased := []colSpec{{Name: base, Kind: k, Rows: pair[0].Rows}, {Name: strings.ToUpper(base[:1]) + strings.ToLower(base[1:]) + "_", Kind: k, Rows: pair[1].Rows}}
+			recased[1].Name = strings.TrimSuffix(recased[1].Name, "_")
+			if recased[1].Name != up && recased[1].Name != base {
+				tc, res = mk()
+				if err := c18decode(encodeRefBlock(rev, blockCols(recased), -1), rev, res); err == nil || isPanic(err) {
+					rt.Fatalf("[%s] column %q was bound to the target named %q (%v)", class, recased[1].Name, up, err)
+				}
+			}
+			// a blank target name takes the block's spelling and holds later blocks to it
+			tc, res = mk()
+			res[1].Name = ""
+			if err := c18decode(encodeRefBlock(rev, blockCols(pair), -1), rev, res); err != nil {
+				rt.Fatalf("[%s] blank second target name: %v", class, err)
+			}
+			lower := []colSpec{pair[0], {Name: lo + "", Kind: k, Rows: pair[1].Rows}}
+			if lower[1].Name != up {
+				// (the second block calls the column by the first target's spelling or another casing)
+				if err := c18decode(encodeRefBlock(rev, blockCols([]colSpec{pair[0], {Name: strings.ToLower(up[:1]) + up[1:], Kind: k, Rows: pair[1].Rows}}), -1), rev, res); strings.ToLower(up[:1])+up[1:] != up && (err == nil || isPanic(err)) {
+					rt.Fatalf("[%s] name %q inferred from the first block, a later block calling the column %q was accepted (%v)", class, up, strings.ToLower(up[:1])+up[1:], err)
+				}
+			}
+			_ = tc
 		case "extra-column":
 			extra := append(append([]colSpec(nil), cols...), colSpec{Name: "extra", Kind: cols[0].Kind, Rows: cols[0].Rows})
 			tc, res := mkTargets(false)
